@@ -363,6 +363,7 @@ func runC16(c *Ctx) {
 	}
 
 	checkIssuerAddrType(c, "C16-R4")
+	checkRecoveryWindowForms(c, "C16-R6")
 	// ---------- R5 ----------
 	if rec := walletFn(c, "C16-R5", "recovery"); rec != nil {
 		n := 0
